@@ -47,6 +47,10 @@ FASTOR_MAKE_ALIAS_FUNC_UNARY_OPS(Tanh)
 // FASTOR_MAKE_ALIAS_FUNC_UNARY_OPS(Norm)
 // FASTOR_MAKE_ALIAS_FUNC_UNARY_OPS(Trace)
 FASTOR_MAKE_ALIAS_FUNC_UNARY_OPS(Trans)
+FASTOR_MAKE_ALIAS_FUNC_UNARY_OPS(CTrans)
+FASTOR_MAKE_ALIAS_FUNC_UNARY_OPS(Inv)
+FASTOR_MAKE_ALIAS_FUNC_UNARY_OPS(Cof)
+FASTOR_MAKE_ALIAS_FUNC_UNARY_OPS(Adj)
 
 
 #define FASTOR_MAKE_ALIAS_FUNC_BINARY_OPS(NAME)\
